@@ -121,7 +121,7 @@ class Ctx:
         res.extra['law_evaluations'] = dict(self.lawcount)
         res.extra['contract_evaluations'] = dict(M.evals)
         res.extra['registered'] = laws.registry_labels(self.reg)
-        res.extra['contracts_attached'] = len(M.attached)
+        res.extra['contracts_attached'] = list(M.attached)
         res.extra['contracts_not_attached'] = list(M.not_attached)
         for k, n in M.info.items():
             res.count(k, n)
@@ -1987,14 +1987,14 @@ def plan(tier, seed):
         for g in IP_GROUPS:
             for f in g:
                 for p in range(3 if f[1] in (4, 128) else 1):
-                    base.append({'kind': 'ip', 'fams': [f], 'scale': 4, 'part': p})
+                    base.append({'kind': 'ip', 'fams': [f], 'scale': 8, 'part': p})
         base.append({'kind': 'other', 'scale': 4})
         for p in range(3):
             base.append({'kind': 'attrs', 'scale': 6, 'part': p})
         for p in range(2):
             base.append({'kind': 'configs', 'part': p, 'parts': 2, 'scale': 1})
         for p in range(8):
-            base.append({'kind': 'corpus', 'part': p, 'parts': 8, 'scale': 10})
+            base.append({'kind': 'corpus', 'part': p, 'parts': 8, 'scale': 25})
     out = []
     for i, d in enumerate(base):
         for hs in (0, 1):
